@@ -451,7 +451,45 @@ func classOf(d map[string]any, i int) string {
 	return "batch"
 }
 
+// c12ValidityGrid evaluates the two validity rules over the whole range of the (unsigned, 64-bit) timestamps, where a
+// conversion to a signed time would wrap: at / valid_until / expired around 0, now, now+7d, 2^53, 2^63 and 2^64-1.
+func c12ValidityGrid(c *mon.Ctx) {
+	if c.Shard != 0 {
+		return
+	}
+	// the seven-day cap moves with the clock: the values next to it are only used one-sidedly (a minute away)
+	now := uint64(time.Now().UnixMilli())
+	day := uint64(24 * 3600 * 1000)
+	points := []uint64{0, 1, 1000, now - 30*day, now - 60000, now + 60000, now + 6*day, now + 7*day - 60000, now + 7*day + 60000, now + 30*day,
+		1 << 53, 1<<63 - 1, 1 << 63, 1<<63 + 1, 1<<64 - 1000, 1<<64 - 1}
+	for _, at := range points {
+		for _, vu := range points {
+			name := fmt.Sprintf("validity-grid:strict:at=%d:valid_until=%d", at, vu)
+			c.Case(name, map[string]any{"at_ts": at, "valid_until_ts": vu}, func() {
+				c.Nontrivial(name)
+				lim := vu
+				if cap7 := now + 7*day; lim > cap7 {
+					lim = cap7
+				}
+				want := vu != 0 && at <= lim
+				got := gmsl.StrictValiditySignatureCheck(spec.Timestamp(at), spec.Timestamp(vu))
+				c.Count("validity_grid_points")
+				if got != want {
+					c.Failf("validity:strict-rule-wrong-beyond-int64", "StrictValiditySignatureCheck(at=%d, valid_until=%d) = %v; at <= min(valid_until, now+7d) is %v (now=%d)", at, vu, got, want, now)
+				}
+				for _, exp := range []uint64{1, now - day, 1 << 63, 1<<64 - 1} {
+					r := gmsl.PublicKeyLookupResult{ExpiredTS: spec.Timestamp(exp), ValidUntilTS: spec.Timestamp(vu)}
+					if g, w := r.WasValidAt(spec.Timestamp(at), gmsl.StrictValiditySignatureCheck), at < exp; g != w {
+						c.Failf("validity:expired-rule-wrong-beyond-int64", "WasValidAt(at=%d) with expired_ts=%d = %v, want %v", at, exp, g, w)
+					}
+				}
+			})
+		}
+	}
+}
+
 func runC12(c *mon.Ctx) {
+	c12ValidityGrid(c)
 	w := newKeyWorld(c.RandShared("keys"))
 	nowMs := time.Now().UnixMilli()
 	base := nowMs - 30*24*hourMs // event timestamps a month ago: far from the 7-day cap and from "now"
